@@ -1,0 +1,11 @@
+//go:build verif
+
+package bitmap1024
+
+import "github.com/pinealctx/neptune/bitmap1024/internal"
+
+// VerifSetSparseMagic sets the popcount threshold below which the iterators
+// use the sparse traversal (the internal package cannot be imported from outside).
+func VerifSetSparseMagic(n int32) {
+	internal.SetSparseMagic(n)
+}
